@@ -72,6 +72,8 @@ pub fn apply(name: &str, prog: &[Op], facts: &mut Facts, effects: &mut Vec<Strin
                 });
             }
             Op::Emit(e) => effects.push(format!("{name}:{e}")),
+            // a command with a wrong parent address is refused by every replica: it does not exist
+            Op::BadParentCut => return Err(Fail::Internal),
             Op::PutK(k, v) => {
                 facts.insert(("kk".to_string(), crate::dag::key_alpha()[k as usize].clone()), vec![v]);
             }
